@@ -8,6 +8,8 @@
 #include <cstdio>
 #include <cstdlib>
 #include <new>
+#include <pthread.h>
+#include <semaphore.h>
 #include <sys/mman.h>
 #include <ucontext.h>
 #include <unistd.h>
@@ -70,12 +72,43 @@ struct Task {
     VC         vc;
     uintptr_t  blocked_on{0};
     size_t     hwm{0};
+    // thread back end: the task is a real OS thread (own TLS), parked on its semaphore whenever it is not scheduled
+    bool       as_thread{false};
+    pthread_t  th{};
+    sem_t      sem;
+    void      *th_stack{nullptr};
+    size_t     th_stack_sz{0};
 };
 
 static Task       g_tasks[MAXTASK];
 static Task      *g_cur      = nullptr;
 static int        g_ntasks   = 0; // tasks in the current run_tasks phase (1 for run_single)
 static ucontext_t g_sched_ctx;
+static sem_t      g_sched_sem;
+static bool       g_sched_sem_init = false;
+
+// hand the processor from a task back to the scheduler / from the scheduler to a task
+static void park_forever() {
+    for (;;) pause();
+}
+static inline void to_scheduler(Task *t) {
+    if (t->as_thread) {
+        sem_post(&g_sched_sem);
+        while (sem_wait(&t->sem) != 0) {
+        }
+    } else {
+        swapcontext(&t->ctx, &g_sched_ctx);
+    }
+}
+static inline void to_task(Task *t) {
+    if (t->as_thread) {
+        sem_post(&t->sem);
+        while (sem_wait(&g_sched_sem) != 0) {
+        }
+    } else {
+        swapcontext(&g_sched_ctx, &t->ctx);
+    }
+}
 static uint64_t   g_slice_left = 0;
 static bool       g_in_rt      = false;
 static bool       g_aborted    = false;
@@ -91,6 +124,7 @@ static bool       g_threads   = false;
 static bool       g_yield_on_event = false;
 static Rng        g_sched_rng(1);
 static size_t     g_stack_hwm = 0;
+static bool       g_sync_released = false; // a simulated lock / guard was released since the scheduler last looked
 
 static uint64_t    g_run_index = 0, g_run_seed = 0;
 static char        g_run_world[64] = {0};
@@ -207,6 +241,10 @@ bool run_aborted() {
     if (g_cur != nullptr) {
         Task *t   = g_cur;
         t->in_lib = false;
+        if (t->as_thread) {
+            sem_post(&g_sched_sem);
+            park_forever(); // the thread and its stack are abandoned with the run
+        }
         swapcontext(&t->ctx, &g_sched_ctx);
     }
     // not inside a task: cannot unwind; treat as fatal framework error
@@ -461,6 +499,10 @@ struct Shadow {
     uint32_t wc{0};
     uint32_t rc[MAXTASK + 1]{};
 };
+struct SimMutex {
+    int owner{-1};
+};
+static std::unordered_map<uintptr_t, SimMutex> *g_mutexes = nullptr;
 static std::unordered_map<uintptr_t, Shadow> g_shadow;
 static std::unordered_map<uintptr_t, VC>     g_sync; // release clocks of sync objects
 
@@ -515,9 +557,10 @@ static void race_access(uintptr_t addr, size_t size, bool w, uintptr_t pc) {
 static void task_yield(uintptr_t pc) {
     Task *t = g_cur;
     g_switches++;
-    mix(g_il_hash, (uint64_t)t->id * 1315423911ULL ^ (uint64_t)(uintptr_t)sym_mangled(pc));
+    mix(g_il_hash, (uint64_t)t->id * 1315423911ULL ^ (uint64_t)sym_start(pc));
     bool in_lib = t->in_lib;
-    swapcontext(&t->ctx, &g_sched_ctx);
+    to_scheduler(t);
+    if (g_aborted && t->as_thread) park_forever();
     t->in_lib = in_lib;
 }
 
@@ -709,6 +752,8 @@ void run_begin(const RunCfg &cfg) {
     g_run_active = true;
     g_shadow.clear();
     g_sync.clear();
+    g_sync_released = false;
+    if (g_mutexes) g_mutexes->clear(); // a run that was abandoned may have left a simulated lock held
     g_exact_fit = false;
     g_ntasks    = 0;
     g_cur       = nullptr;
@@ -801,7 +846,44 @@ static void fiber_main(unsigned lo, unsigned hi) {
     _exit(3); // never resumed
 }
 
+static void *thread_main(void *arg) {
+    Task *t = (Task *)arg;
+    while (sem_wait(&t->sem) != 0) {
+    }
+    if (g_aborted) park_forever();
+    t->fn();
+    t->done   = true;
+    t->in_lib = false;
+    sem_post(&g_sched_sem);
+    return nullptr;
+}
+
+static void task_prepare_thread(Task &t, const TaskFn &fn, size_t stack_bytes) {
+    t.fn         = fn;
+    t.done       = false;
+    t.started    = false;
+    t.in_lib     = false;
+    t.sdepth     = 0;
+    t.steps      = 0;
+    t.blocked_on = 0;
+    t.as_thread  = true;
+    t.paint      = 0;
+    sem_init(&t.sem, 0, 0);
+    if (stack_bytes < (size_t(256) << 10)) stack_bytes = size_t(256) << 10;
+    t.th_stack_sz = stack_bytes;
+    t.th_stack    = mmap(nullptr, stack_bytes, PROT_READ | PROT_WRITE, MAP_PRIVATE | MAP_ANONYMOUS | MAP_STACK, -1, 0);
+    pthread_attr_t at;
+    pthread_attr_init(&at);
+    pthread_attr_setstack(&at, t.th_stack, stack_bytes);
+    if (pthread_create(&t.th, &at, thread_main, &t) != 0) {
+        fprintf(stderr, "qsim: pthread_create failed\n");
+        _exit(3);
+    }
+    pthread_attr_destroy(&at);
+}
+
 static void task_prepare(Task &t, const TaskFn &fn, size_t stack_bytes, size_t paint_bytes) {
+    t.as_thread = false;
     t.fn         = fn;
     t.done       = false;
     t.started    = false;
@@ -848,11 +930,18 @@ void run_tasks(std::vector<TaskSpec> &specs, Plan &plan) {
     size_t     ri       = 0;
     if (!replay) plan.sched.clear();
     g_sched_rng.reseed(derive(plan.seed, "sched"));
+    if (g_threads && !g_sched_sem_init) {
+        sem_init(&g_sched_sem, 0, 0);
+        g_sched_sem_init = true;
+    }
     for (int i = 0; i < n; i++) {
         Task &t = g_tasks[i];
         memset(&t.vc, 0, sizeof t.vc);
         t.vc.c[i] = 1;
-        task_prepare(t, specs[(size_t)i].fn, specs[(size_t)i].stack_bytes, 64 * 1024);
+        if (g_threads)
+            task_prepare_thread(t, specs[(size_t)i].fn, specs[(size_t)i].stack_bytes);
+        else
+            task_prepare(t, specs[(size_t)i].fn, specs[(size_t)i].stack_bytes, 64 * 1024);
     }
     g_ntasks = n;
     g_yield_on_event = (!replay && strategy == 3);
@@ -939,7 +1028,7 @@ void run_tasks(std::vector<TaskSpec> &specs, Plan &plan) {
         g_slice_left    = steps;
         g_cur           = &t;
         t.started       = true;
-        swapcontext(&g_sched_ctx, &t.ctx);
+        to_task(&t);
         g_cur        = nullptr;
         uint64_t ran = t.steps - before;
         ev(0x5C4ED000ULL ^ ((uint64_t)pick << 40) ^ ran);
@@ -958,12 +1047,28 @@ void run_tasks(std::vector<TaskSpec> &specs, Plan &plan) {
                     }
             }
         }
-        // wake tasks blocked on objects that were released
-        for (int i = 0; i < n; i++)
-            if (g_tasks[i].blocked_on == 1) g_tasks[i].blocked_on = 0;
+        // wake blocked tasks only after something was released (otherwise a high-priority waiter would be picked
+        // again and again while the owner never runs)
+        if (g_sync_released) {
+            g_sync_released = false;
+            for (int i = 0; i < n; i++)
+                if (g_tasks[i].blocked_on == 1) g_tasks[i].blocked_on = 0;
+        }
     }
     for (int i = 0; i < n; i++) {
-        size_t used = measure_stack(g_tasks[i]);
+        Task &t = g_tasks[i];
+        if (t.as_thread) {
+            if (t.done) {
+                pthread_join(t.th, nullptr);
+                munmap(t.th_stack, t.th_stack_sz);
+            } else {
+                pthread_detach(t.th); // parked for ever; its stack stays mapped
+            }
+            sem_destroy(&t.sem);
+            t.as_thread = false;
+            continue;
+        }
+        size_t used = measure_stack(t);
         if (used > g_stack_hwm) g_stack_hwm = used;
     }
     plan.sched_explicit = true;
@@ -1304,6 +1409,7 @@ void __wrap___cxa_guard_release(uint64_t *g) {
     }
     b[1] = 0;
     b[0] = 1;
+    g_sync_released = true;
 }
 void __wrap___cxa_guard_abort(uint64_t *g) {
     if (!lib_active()) {
@@ -1311,12 +1417,9 @@ void __wrap___cxa_guard_abort(uint64_t *g) {
         return;
     }
     ((uint8_t *)g)[1] = 0;
+    g_sync_released   = true;
 }
 
-struct SimMutex {
-    int owner{-1};
-};
-static std::unordered_map<uintptr_t, SimMutex> *g_mutexes = nullptr;
 int  __real_pthread_mutex_lock(void *);
 int  __real_pthread_mutex_unlock(void *);
 int  __real_pthread_mutex_trylock(void *);
@@ -1357,6 +1460,7 @@ int __wrap_pthread_mutex_unlock(void *m) {
     SimMutex &sm = (*g_mutexes)[(uintptr_t)m];
     sm.owner     = -1;
     sync_release((uintptr_t)m);
+    g_sync_released = true;
     return 0;
 }
 
